@@ -330,9 +330,9 @@ def call_x(cube, agg, case, rma):
     return getattr(cube, agg)(f, weights=w, ignore_missing=ig, return_missing_as=rma)
 
 
-def call_any(cube, agg, case, rma):
+def call_any(cube, agg, case, rma, via="shortcut"):
     if agg in SHARED:
-        return call(cube, agg, case, rma)
+        return call(cube, agg, case, rma, via=via)
     return call_x(cube, agg, case, rma)
 
 
